@@ -780,6 +780,41 @@ static void checkArrays(int dx, int dy, int dz, vh::Rng &r)
             done = true;
           }
         }
+    // value ranges of a converting view, asked for through the view's own (static) type: they bound the CONVERTED
+    // values of the region tightly, also when the conversion is not monotone (int -> unsigned char wraps)
+    {
+      vh::Rng rr2(vh::hashStr(ctx.c_str(), 3), 17);
+      for (int q = 0; q < 6; ++q) {
+        vec3i b((int)rr2.range(-1, dx), (int)rr2.range(-1, dy), (int)rr2.range(-1, dz));
+        vec3i e((int)rr2.range(b.x + 1, dx + 1), (int)rr2.range(b.y + 1, dy + 1), (int)rr2.range(b.z + 1, dz + 1));
+        if (q == 0)
+          b = vec3i(0), e = d;
+        int lo = 255, hi = 0;
+        float flo = 0, fhi = 0;
+        bool first = true;
+        for (int z = b.z; z < e.z; ++z)
+          for (int y = b.y; y < e.y; ++y)
+            for (int x = b.x; x < e.x; ++x) {
+              int u   = (int)(unsigned char)g.at(x, y, z);
+              float f = (float)g.at(x, y, z);
+              lo = u < lo ? u : lo, hi = u > hi ? u : hi;
+              flo = first || f < flo ? f : flo, fhi = first || f > fhi ? f : fhi;
+              first = false;
+            }
+        range_t<unsigned char> ru = vu.getValueRange(b, e);
+        range_t<float> rf         = vf.getValueRange(b, e);
+        if ((int)ru.lower != lo || (int)ru.upper != hi || rf.lower != flo || rf.upper != fhi) {
+          vh::violation("C17:Accessor:getValueRange(region)", "region " + sv(b) + ".." + sv(e) + ": Accessor<int,uchar> says [" + std::to_string((int)ru.lower) + "," + std::to_string((int)ru.upper) + "], the converted cells span [" +
+                                                                  std::to_string(lo) + "," + std::to_string(hi) + "]; Accessor<int,float> says [" + std::to_string(rf.lower) + "," + std::to_string(rf.upper) + "], cells span [" + std::to_string(flo) + "," + std::to_string(fhi) + "]", ctx);
+          break;
+        }
+        if (q == 0) {
+          range_t<unsigned char> rw = vu.getValueRange();
+          VH_CHECK((int)rw.lower == lo && (int)rw.upper == hi, "C17:Accessor:getValueRange", "whole-volume range of Accessor<int,uchar> is [" + std::to_string((int)rw.lower) + "," + std::to_string((int)rw.upper) + "], the converted cells span [" + std::to_string(lo) + "," + std::to_string(hi) + "]", ctx);
+        }
+        vh::count("accessor_region_ranges");
+      }
+    }
     Array3DAccessor<int, float> vs(sbase);
     range_t<float> rr = vs.getValueRange();
     VH_CHECK(rr.lower == (float)ID0 && rr.upper == (float)(ID0 + (int)total - 1), "C17:Accessor:getValueRange", "[" + std::to_string(rr.lower) + "," + std::to_string(rr.upper) + "]", ctx);
